@@ -650,13 +650,14 @@ def reparsed_buffers(ctx, report, RULE='C19.R11'):
         text = ast.unparse(fn)
         last = text.split('.')[-1]
         return last in ('ParserText', 'ParserBinary') or 'parse' in last.lower() or (isinstance(fn, ast.Name) and fn.id in params)
-    for f in ctx.model.functions():
-        if f.module.external:
-            continue
-        params = {a.arg for a in f.node.args.args + f.node.args.kwonlyargs}
-        for loop in ast.walk(f.node):
+    def scan(fnode, construct, add):
+        """-> (loops read, loops that carry a parsed buffer from pass to pass)"""
+        loops = carried = 0
+        params = {a.arg for a in fnode.args.args + fnode.args.kwonlyargs}
+        for loop in ast.walk(fnode):
             if not isinstance(loop, (ast.While, ast.For)):
                 continue
+            loops += 1
             handed = {}
             for x in ast.walk(loop):
                 if isinstance(x, ast.Call) and x.args and isinstance(x.args[0], ast.Name) and parsing_call(x, params):
@@ -667,19 +668,49 @@ def reparsed_buffers(ctx, report, RULE='C19.R11'):
                     continue
                 if not all(any(isinstance(y, ast.Name) and y.id == name for y in ast.walk(st.value)) for st in binds):
                     continue        # bound afresh on every pass (an item cut out of the input), not carried from pass to pass
-                n += 1
+                carried += 1
                 for st in binds:
                     v = st.value
                     suffix = isinstance(v, ast.Subscript) and isinstance(v.value, ast.Name) and v.value.id == name and isinstance(v.slice, ast.Slice) and \
                         v.slice.lower is not None and v.slice.upper is None and v.slice.step is None
                     if not suffix:
-                        report.add(RULE, '%s@reparse[%s]' % (f.construct, name),
-                                   '%s is parsed by %s on every pass of the loop and re-bound there to %s, which is not a suffix of it: each pass reads the '
-                                   'octets of the earlier passes again (work grows with the square of the number of passes)' % (
-                                       name, ast.unparse(call.func)[:40], ast.unparse(v)[:70]))
+                        add(RULE, '%s@reparse[%s]' % (construct, name),
+                            '%s is parsed by %s on every pass of the loop and re-bound there to %s, which is not a suffix of it: each pass reads the '
+                            'octets of the earlier passes again (work grows with the square of the number of passes)' % (
+                                name, ast.unparse(call.func)[:40], ast.unparse(v)[:70]))
                         break
-    report.count(RULE, n)
-    report.floor(RULE, 1, 'loops that parse a buffer they re-bind')
+        return loops, carried
+
+    # the rule is read on two loops of its own first (the package may hold none that carries a buffer): it must flag the first, not the second
+    seen = []
+    sample = ast.parse(REPARSE_SAMPLE)
+    for fn in sample.body:
+        scan(fn, 'sample:' + fn.name, lambda rule, construct, detail: seen.append(construct))
+    if seen != ['sample:rebuilt@reparse[rest]']:
+        report.errors.append('%s: the rule does not tell its own two sample loops apart (%s)' % (RULE, seen))
+    loops = 0
+    for f in ctx.model.functions():
+        if f.module.external:
+            continue
+        a, b = scan(f.node, f.construct, report.add)
+        loops += a
+        n += b
+    report.count(RULE, loops)
+    report.sample({'rule': RULE, 'loops_read': loops, 'loops_that_carry_a_parsed_buffer': n})
+    report.floor(RULE, 50, 'loops read')
+
+
+REPARSE_SAMPLE = """
+def rebuilt(rest, parse):
+    while rest:
+        item, n = parse(rest)
+        rest = rest[:0] + rest[n:].lstrip()
+
+def suffix(rest, parse):
+    while rest:
+        item, n = parse(rest)
+        rest = rest[n:]
+"""
 
 
 MUTATING_METHODS = ('append', 'extend', 'insert', 'pop', 'remove', 'clear', 'sort', 'reverse', 'update', 'setdefault', 'add', 'discard', 'popitem',
